@@ -203,6 +203,19 @@ theorem sources_all_named (classify : Bytes → Option GName) (r : Req) (n : Nam
       | none => simp [hc] at hal
       | some y => simp [hc] at hal hgm; subst hal; simp [hgm]
 
+/-- `dummy_cert` puts the whole list into the certificate — there is no cap on the number of names: every source name is a SAN of the
+    LEAF, however long the upstream certificate's list is (the identity the client asked for comes after the upstream names). -/
+theorem leaf_names_all_sources (classify : Bytes → Option GName) (offset expiry : Int) (caHasSki : Bool) (now : Int)
+    (r : Req) (p : C16.Plan) (h : leaf classify offset expiry caHasSki now r = some p) :
+    (∀ g ∈ sources classify r, g ∈ p.sans) ∧ (∀ n, getNames classify r = some n → p.sans = n.sans ∧ p.sans.length = n.sans.length) := by
+  unfold leaf at h
+  simp only [Option.map_eq_some_iff] at h
+  obtain ⟨n, hn, rfl⟩ := h
+  refine ⟨fun g hg => by simpa [dummyCert] using sources_all_named classify r n hn g hg, ?_⟩
+  intro n' hn'
+  rw [hn] at hn'; injection hn' with hn'; subst hn'
+  exact ⟨rfl, rfl⟩
+
 private theorem dedup_sublist (l : List GName) : (dedup l).Sublist l := by
   induction l with
   | nil => simp [dedup]
